@@ -1,9 +1,12 @@
 CONSTANTS
   MaxCmds = 3
-  MaxPending = 3
+  MaxPending = 2
   MaxNum = 2
-  MaxItems = 2
-  Kinds = {"LOGIN", "CAPABILITY", "ENABLE", "NAMESPACE", "LIST", "LISTSTATUS", "STATUS", "GETQUOTA", "GETQUOTAROOT", "GETMETADATA", "APPEND", "CREATE", "UNAUTH"}
+  MaxItems = 1
+  MaxUid = 1
+  MaxCode = 1
+  NFlagSets = 2
+  Kinds = {"LOGIN", "CAPABILITY", "ENABLE", "NAMESPACE", "APPEND", "CREATE", "UNAUTH"}
   Greetings = {"OK", "PREAUTH"}
 INIT Init
 NEXT Next
